@@ -73,6 +73,27 @@ func filterAccountAddress(address, key string) string {
 // than selected by it.
 const metadataOrEmpty = `coalesce(accounts_metadata.metadata, '{}'::jsonb) as metadata`
 
+// filterMetadataIn resolves `$in` on one metadata key: the key is present and its
+// value is one of the listed strings. A single containment test cannot express it (a
+// string value never contains an array), so it is the disjunction of the tests `$match`
+// would make; like them it is false, not NULL, where the key is absent.
+func filterMetadataIn(key string, value any) (string, []any, error) {
+	values, ok := value.([]any)
+	if !ok {
+		return "", nil, NewErrInvalidQuery("operator '$in' expects an array")
+	}
+	if len(values) == 0 {
+		return "1 = 0", nil, nil
+	}
+	clauses := make([]string, len(values))
+	args := make([]any, len(values))
+	for i, v := range values {
+		clauses[i] = "metadata @> ?"
+		args[i] = map[string]any{key: v}
+	}
+	return "(" + strings.Join(clauses, " or ") + ")", args, nil
+}
+
 // collectAddressFilters visits all address filter values (without short-circuiting)
 // and returns the collected addresses and whether any partial address was found.
 func collectAddressFilters(q interface {
